@@ -648,7 +648,26 @@ class Arbiter:
                                        self.LISTENERS, self.app,
                                        self.timeout / 2.0, self.cfg, self.log)
             self.cfg.pre_fork(self, worker)
-            pid = os.fork()
+            # Fork with the signals held back.  In the arbiter the SIGCHLD
+            # handler can raise HaltServer (a sibling failed to boot): a pid
+            # lost between fork() and the insert below is a worker nobody
+            # ever stops.  In the child the handlers inherited from the
+            # arbiter only queue a signal in this copy of the arbiter: a stop
+            # signal sent to the new worker before it installs its own
+            # handlers would be lost for good, so let it end the process.
+            held = [signal.SIGCHLD, signal.SIGTERM, signal.SIGQUIT,
+                    signal.SIGINT]
+            signal.pthread_sigmask(signal.SIG_BLOCK, held)
+            try:
+                pid = os.fork()
+                if pid != 0:
+                    worker.pid = pid
+                    self.WORKERS[pid] = worker
+                else:
+                    for s in (signal.SIGTERM, signal.SIGQUIT, signal.SIGINT):
+                        signal.signal(s, signal.SIG_DFL)
+            finally:
+                signal.pthread_sigmask(signal.SIG_UNBLOCK, held)
         except OSError as e:
             if e.errno not in (errno.EAGAIN, errno.ENOMEM, errno.EMFILE,
                                errno.ENFILE, errno.ENOSPC):
@@ -661,16 +680,7 @@ class Arbiter:
                 worker.tmp.close()
             return None
         if pid != 0:
-            worker.pid = pid
-            self.WORKERS[pid] = worker
             return pid
-
-        # Until the worker installs its own handlers it would run the ones
-        # inherited from the arbiter, which only queue the signal in this
-        # copy of the arbiter: a stop signal sent to the new worker in that
-        # window would be lost for good.  Let it end the process instead.
-        for s in (signal.SIGTERM, signal.SIGQUIT, signal.SIGINT):
-            signal.signal(s, signal.SIG_DFL)
 
         # Do not inherit the temporary files of other workers
         for sibling in self.WORKERS.values():
